@@ -54,8 +54,12 @@ def gen_plan(rng, index, tier):
             bp["heights"] = heights[: nb - 1] + [rng.choice([10.0, 25.0])] + heights[nb - 1 :]
             bp["rect_duct"] = rng.random() < 0.6
     if rng.random() < 0.3:
+        bp["liner"] = True  # a solid liner of user-defined composition (material Custom) in the fuel blocks
+    if rng.random() < 0.3:
         bp["fuel_target"] = "clad"  # the blueprint designates the clad, not the fuel, as the fuel blocks' target
     cfg = {"reactor": "gen", "blueprint": bp, "settings": {"nCycles": 1, "burnSteps": 1, "detailedAxialExpansion": True}, "actors": []}
+    if nfuel >= 2 and not bp.get("fuel_target") and rng.random() < 0.35:
+        cfg["lockOneFuelBlockToClad"] = rng.randrange(8)
     steps = []
     for _ in range(rng.randint(3, 25)):
         kind = rng.choice(["prescribed", "prescribed", "uniform", "roundtrip", "roundtrip_uniform", "thermal"])
@@ -97,12 +101,13 @@ def rel(a, b):
 
 class Ledger:
     def __init__(self, a):
-        from armi.reactor.converters.axialExpansionChanger.expansionData import iterSolidComponents
+        from armi.materials.material import Fluid
 
         self.a = a
         self.height0 = float(a.getTotalHeight())
         self.nblocks = len(a)
-        self.solids = [(bi, c) for bi, b in enumerate(a) for c in iterSolidComponents(b)]
+        # the solids, by the ledger's own rule: everything whose material is not a fluid
+        self.solids = [(bi, c) for bi, b in enumerate(a) for c in b if not isinstance(c.material, Fluid)]
         self.mass0 = {id(c): float(c.getMass()) for _, c in self.solids}
 
     def state(self):
@@ -123,6 +128,15 @@ class Runner:
         self.log = log
         self.asms = list(o.r.core)
         self.ledgers = {id(a): Ledger(a) for a in self.asms}
+        lock = plan["config"].get("lockOneFuelBlockToClad")
+        if lock is not None:
+            # one fuel block of each assembly is told to follow its clad (public setter); its
+            # neighbours of the same block type keep their own targets
+            for a in self.asms:
+                fb = [b for b in a if b.getComponentByName("fuel") is not None and b.getComponentByName("clad") is not None]
+                if len(fb) >= 2:
+                    b = fb[lock % len(fb)]
+                    b.setAxialExpTargetComp(b.getComponentByName("clad"))
         # targets designated by the input (blueprint key) must stay the targets
         self.designated = {id(b): b.p.axialExpTargetComponent for a in self.asms for b in a if b.p.axialExpTargetComponent}
         self.changer = AxialExpansionChanger(detailedAxialExpansion=True)
